@@ -51,6 +51,13 @@ def run_cli(spec, R):
         disable = rng.random() < 0.3
         btxt = repr(beta)
         argv = ['depccg', lang, '--beta', btxt, '--pruning-size', str(prune), '--nbest', str(nbest)] + (['--disable-beta'] if disable else [])
+        early = rng.random() < 0.15
+        if early:
+            # a beam option written before the language: either it is refused, or it takes effect - it is never accepted and dropped
+            opts = [['--beta', btxt], ['--pruning-size', str(prune)]] + ([['--disable-beta']] if disable else [])
+            first = rng.choice(opts)
+            rest = [o for o in opts if o is not first]
+            argv = ['depccg'] + first + [lang] + [a for o in rest for a in o] + ['--nbest', str(nbest)]
         got = {}
         old = sys.argv
         sys.argv = argv
@@ -64,6 +71,9 @@ def run_cli(spec, R):
             sys.argv = old
         R.case(('cli', tuple(argv)), True)
         R.count('cli:argument-vectors')
+        if early and (got.get('exit') not in (None, 0) or 'error' in got):
+            R.count('cli:early-option-refused')
+            continue
         wit = {'argv': argv, 'got': {k: got.get(k) for k in ('beta', 'pruning_size', 'nbest', 'disable_beta', 'exit', 'error')}}
         if got.get('beta') != float(btxt) or got.get('pruning_size') != prune or got.get('disable_beta') is not disable \
                 or got.get('nbest') != nbest:
@@ -155,6 +165,10 @@ def gen(rng, spec):
                     tag[i, j] = -10e+32
         elif r < 0.6 and T >= 2:
             tag[i, order[1]] = tag[i, order[0]]          # tie at the top
+        elif r < 0.68 and T >= 2:
+            # tags of probability 0: with the filter off only their rank counts, with the filter on they are below any beta x best
+            for j in (list(order[1:]) if rng.random() < 0.5 else rng.sample(list(order[1:]), rng.randint(1, T - 1))):
+                tag[i, j] = -np.inf
     case['sentences'][0] = (words, tag.astype(np.float32), dep)
     case['exact'] = False
     if rng.random() < 0.15 and cfg['beta'] >= 1e-5:      # deep rows are built for beta >= 1e-5 (see extreme_rows)
